@@ -71,6 +71,14 @@ func calleeName(fn *ssa.Function) string {
 func (fe *FnEnc) callWithArgs(st *State, instr ssa.Instruction, common *ssa.CallCommon, fnRV RV, args []RV, res ssa.Value) {
 	sig := common.Signature()
 	pos := instr.Pos()
+	// the arguments of the call at hand, for cut points: arg0, arg1, ... (a method's receiver is arg0 unless the call goes through an interface)
+	fe.lastArgs = nil
+	for i, a := range args {
+		if i < len(common.Args) {
+			a.Typ = common.Args[i].Type()
+		}
+		fe.lastArgs = append(fe.lastArgs, a)
+	}
 	// builtins
 	if b, ok := common.Value.(*ssa.Builtin); ok {
 		fe.callBuiltin(st, b, common, args, res, pos)
@@ -677,6 +685,11 @@ func (fe *FnEnc) cutPointsAt(st *State, key string, ord int, pos token.Pos, afte
 			}
 		}
 		env := fe.loopEnv(st, l)
+		for i, a := range fe.lastArgs {
+			if a.Valid && a.Typ != nil && a.Clos == nil && len(a.Tuple) == 0 && a.A == nil && a.T.S != "" {
+				env.names[fmt.Sprintf("arg%d", i)] = SVal{T: a.T, Typ: a.Typ}
+			}
+		}
 		if after {
 			for i, r := range fe.lastRets {
 				sv := SVal{T: r.T, Typ: r.Typ}
